@@ -36,6 +36,9 @@ def jobs(tier):
     # the stalled-peer history is the recorded finding D10; it is searched only while it is not recorded
     if "D10-idle-connection-with-stalled-peer-not-reaped" not in [k["id"] for k in runner.load_known("C18") if k.get("kind") == "known"]:
         js.append(dict(name="D10:stalled-peer", limit=4, prefix=["connect", "request"], n=2, stalled=True))
+    heavy = lambda j: j.get("prefix", [])[1:] == ["tick", "request"]
+    js = common.shard(js, "lookahead", 2, heavy)
+    js = common.shard(js, "ev0", len(EVENTS), heavy)
     return js
 
 
